@@ -324,7 +324,28 @@ fn exec15(cx: &mut Ctx, c: &C15Case) {
                         o.d[*w as usize - 8] ^= 1u32 << (*b % 32);
                         ["d0-counter-low", "d1-counter-high", "d2-stream-low", "d3-stream-high"][*w as usize - 8]
                     }
-                    _ => "identical",
+                    12 | 13 => "identical",
+                    // general pairs: several words differ at once
+                    14 => {
+                        // high counter word +-1 and an unrelated low counter word
+                        o.d[1] = if *b % 2 == 0 { o.d[1].wrapping_add(1) } else { o.d[1].wrapping_sub(1) };
+                        o.d[0] = (*b as u32).wrapping_mul(0x9e37_79b9) ^ o.d[0].rotate_left(*b as u32);
+                        "d1+-1-and-d0"
+                    }
+                    15 => {
+                        o.d[0] = o.d[0].wrapping_add(1 + *b as u32);
+                        o.d[1] = o.d[1].wrapping_add(0x10000 << (*b % 8));
+                        "d0-and-d1"
+                    }
+                    16 => {
+                        o.d[0] = !o.d[0];
+                        o.d[2] ^= 1 << (*b % 32);
+                        "d0-and-d2"
+                    }
+                    _ => {
+                        o.d[0] = o.d[0].wrapping_sub(1 + *b as u32);
+                        "d0-only-far"
+                    }
                 };
                 let other = make(&o.key, o.d);
                 let e64 = o.key == m.key && o.d[2] == m.d[2] && o.d[3] == m.d[3];
@@ -351,7 +372,7 @@ fn exec15(cx: &mut Ctx, c: &C15Case) {
                     cx.log.violation(&format!("{}|state-eq|{}", sigp, kind), &format!("op #{}: == gives {} for states whose words {}", i, geq, if eall { "are identical" } else { "differ" }));
                     break;
                 }
-                if *w >= 12 {
+                if *w == 12 || *w == 13 {
                     // a state built directly with the same values must behave identically
                     let mut x = other.clone();
                     let mut y = s.clone();
@@ -386,7 +407,7 @@ fn run15(cx: &mut Ctx) {
                 3 => Op::Get(rng.below(2) as u32),
                 4 | 5 => Op::R1(rng.below(11) as u32),
                 6 => Op::R4(rng.below(11) as u32),
-                _ => Op::Eq(rng.below(14) as u8, rng.below(32) as u8),
+                _ => Op::Eq(rng.below(18) as u8, rng.below(32) as u8),
             });
         }
         let c = C15Case { fb: *rng.pick(levels), kseed: rng.u64(), nonce12: rng.below(2) == 0, ops };
